@@ -39,17 +39,22 @@ def base_program(pkg, layout="three", import_form="from_import", entry_data=Fals
     p["fns"][A]["stmts"] = [gen.s_call(h1, [gen.lit("3")]), gen.s_call(C, [])]
     B = gen.add_fn(p, mid, "B", data_path="/b", const=20)
     D = gen.add_fn(p, top, "D", params=[("y", None), ("z", "9")], const=30)
+    # run-time arguments bound to parameters that have defaults (positional, and by keyword)
+    E1 = gen.add_fn(p, top, "E1", params=[("y", "3"), ("z", "9")], const=31)
+    E2 = gen.add_fn(p, top, "E2", params=[("a", None), ("z", "9")], const=32)
     main = gen.add_fn(p, top, "main", const=1, data_path="/main" if entry_data else None)
     p["fns"][main]["stmts"] = [
         gen.s_keep("/a", A, [gen.lit("1"), gen.lit("2")]),
         gen.s_call(B, []),
         gen.s_keep("/d", D, [gen.local(0), gen.lit("5")]),
         gen.s_call(h1, [gen.lit("7")]),
+        gen.s_keep("/e1", E1, [gen.local(0)]),
+        gen.s_keep("/e2", E2, [gen.lit("1"), gen.local(1, kw="z")]),
     ]
     p["entry"] = main
     if with_ext:
         p["ext"] = {"pkg": pkg + "_ext", "const": 1, "var": "1", "comment": "c"}
-    p["_ids"] = {"h2": h2, "C": C, "h1": h1, "A": A, "B": B, "D": D, "main": main, "leaf": leaf, "mid": mid, "top": top}
+    p["_ids"] = {"h2": h2, "C": C, "h1": h1, "A": A, "B": B, "D": D, "E1": E1, "E2": E2, "main": main, "leaf": leaf, "mid": mid, "top": top}
     return p
 
 
